@@ -16,6 +16,13 @@ CHECKS = {
              "'Confirmed over all paths' is required, so within the finite type domain the result is complete; bespoke operator classes are outside.",
         note="Trusted: CrossHair's model of Python, the RST table parser. Operator classes with bespoke validation are listed as outside the claim.",
         ref="3 C11"),
+    "C30": dict(
+        technique="CrossHair symbolic execution of the real set_decimal_config/_parse_env_value with the environment as symbolic integers",
+        text="Partial. Decides, for every integer -5..45 (and 'not defined') of both variables at once, that a setting is accepted exactly when documented, "
+             "that an accepted setting yields the documented DECIMAL(width,scale) that DuckDB can create, and that the effect of a configuration does "
+             "not depend on the previous configuration of the process (2-run histories). What DuckDB stores/rounds/sums under the setting is outside.",
+        note="Stubs: os.getenv/os.environ.get return the symbolic values; error-message formatting skipped. Trusted: CrossHair, transcription of the documented ranges.",
+        ref="3 C30"),
 }
 
 NOT_APPLICABLE = {
